@@ -149,6 +149,9 @@ func rewriteSelect(fn string, s *ast.SelectStmt) []ast.Stmt {
 		}
 		idx++
 	}
+	if !hasDefault { // keeps a select that ends a function a terminating statement
+		sw.WriteString("default:\npanic(\"nvinstr: select index out of range\")\n")
+	}
 	sw.WriteString("}\n")
 	code := fmt.Sprintf("{\nnvsel := NvSelect(%s, %v, %s)\n%s}\n", labelExpr(fn, "select"), hasDefault, strings.Join(cases, ", "), sw.String())
 	return parseStmts(code)
